@@ -568,6 +568,27 @@ class World:
             if kind == 'delcert2':
                 return True, lambda: kc[ib][k].del_cert(enc.Name.from_bytes(c))
             return True, lambda: kc[ib][k].set_default_cert(enc.Name.from_bytes(c))
+        if kind == 'defkey-gone':
+            # the application still holds the name of a key it deleted earlier and names it as default: nothing of that name exists,
+            # so nothing changes (refusing with KeyError is as good)
+            ib = nb(IDN[op[1]])
+            if ib not in self.ref or not self.ref[ib]['keys']:
+                return False, None
+            idn = [bytes(c) for c in enc.Name.from_str(IDN[op[1]])]
+            gone = sorted(k for k in self.deleted_keys if [bytes(c) for c in enc.Name.from_bytes(k)][:-2] == idn)
+            if not gone:
+                gone = [nb(IDN[op[1]] + '/KEY/%99%98')]       # (or one that was removed from another process)
+            return True, lambda: kc[ib].set_default_key(enc.Name.from_bytes(gone[0]))
+        if kind == 'import-dup':
+            # a certificate that is already filed under its own key is imported once more under another key of the identity: whatever
+            # the store makes of that, the key that owns the certificate keeps it
+            ib = nb(IDN[op[1]])
+            k0, k1 = self.key_of(op[1], 0), self.key_of(op[1], 1)
+            if k0 is None or k1 is None or not self.ref[ib]['keys'][k0]['certs']:
+                return False, None
+            c = self.ref[ib]['keys'][k0]['certs'][0]
+            data = bytes(self.kc[ib][k0][c].data)
+            return True, lambda: kc.import_cert(enc.Name.from_bytes(k1), enc.Name.from_bytes(c), data)
         if kind == 'reopen':
             return True, self.reopen
         raise ValueError(op)
@@ -662,7 +683,12 @@ class World:
             return viol
         expect_refusal = op[0] == 'newid' and nb(IDN[op[1]]) in self.ref
         try:
-            call()
+            try:
+                call()
+            except Exception:  # noqa
+                if op[0] not in ('defkey-gone', 'import-dup'):
+                    raise
+                # refusing is fine; the state is compared below all the same
             if expect_refusal:
                 viol.append(('C15|op|duplicate-identity-accepted', f'new_identity on an existing identity did not raise; op {op}'))
             else:
@@ -752,7 +778,8 @@ def alphabet(tier):
            ('defcert', 'a', 0, 0), ('defcert', 'a', 0, 1), ('defcert', 'a', 1, 0),
            ('delcert', 'a', 0, 0), ('delcert', 'a', 0, 1), ('delcert2', 'a', 0, 0), ('delcert', 'b', 0, 0),
            ('delkey', 'a', 0), ('delkey', 'a', 1), ('delkey2', 'a', 0), ('delkey', 'b', 0),
-           ('delid', 'a'), ('delid', 'b'), ('signL', 'a', 0), ('signL', 'a', 1), ('signL', 'b', 0), ('reopen',)]
+           ('delid', 'a'), ('delid', 'b'), ('signL', 'a', 0), ('signL', 'a', 1), ('signL', 'b', 0), ('reopen',),
+           ('defkey-gone', 'a'), ('import-dup', 'a')]
     return ops
 
 
